@@ -32,7 +32,7 @@ for pid in ids:
 m = {"version": 1, "setup_cmd": "python3 run.py setup",
      "hooks": {"guard": "SOUNDSWALLOWER_VERIF",
                "enable": "run.py copies /repo/src and /repo/include to a scratch directory on every check; inject.py turns the /*@ssw loop|ghost|field ...*/ annotation comments into __CPROVER loop contracts / ghost text there; goto-cc -DSOUNDSWALLOWER_VERIF -DSSW_CBMC compiles harness + injected source as one TU (the CMake build is never given the guard; the annotations are comments)",
-               "baseline_off_cmd": "cmake --build /repo/_build && ctest --test-dir /repo/_build -j8 --timeout 900",
+               "baseline_off_cmd": "cmake --build /repo/_build --target check ; ctest --test-dir /repo/_build -j8 --timeout 900",
                "source_commits": hooks_commits, "add_only": True},
      "engines": [{"name": "cbmc-dfcc", "path": "run.py", "serves_properties": served,
                   "kind_free_text": "CBMC 6.11 function and loop contracts enforced per function with goto-instrument --dfcc, callees replaced by their contracts; SAT back end"},
